@@ -91,7 +91,7 @@ class C13(Prop):
                 continue
             if op["op"] == "set" and op["attr"] in ("method", "kick", "constants"):
                 pre.append(copy.deepcopy(op))
-            if op["op"] in ("jac_hook", "jac_unhook"):
+            if op["op"] in ("jac_hook", "jac_unhook", "del_constants"):
                 pre.append(copy.deepcopy(op))
         c["ops"] = pre + copy.deepcopy(scn["ops"][r + 1:])
         shift = r + 1 - len(pre)
